@@ -72,11 +72,11 @@ partial def inFloatClass : Item → Bool
   | .lit (.float _) => true
   | t => inRtClass t
 
-/-- `( roundtrip ITEM n<printed> ( reparsed exec ) )` -/
+/-- `( roundtrip ITEM n<printed> ( reparsed exec ) n<implementation's print of the reparsed exec> )` -/
 def handleRoundtrip : List Sx → String
-  | [item, printed, exec2] =>
-    match decItem item, decName printed, decListOf decItem exec2 with
-    | some item, some printed, some exec2 =>
+  | [item, printed, exec2, reprinted] =>
+    match decItem item, decName printed, decListOf decItem exec2, decName reprinted with
+    | some item, some printed, some exec2, some reprinted =>
       let mp := item.show
       let mm1 := if mp == printed then "" else " MISMATCH model= print " ++ encName mp
       let me := parseProgram isInstr [] printed
@@ -87,12 +87,16 @@ def handleRoundtrip : List Sx → String
           (if encList (exec2.map encItem) == encList [encItem item] then ""
            else " PROPFAIL C11 parse(print t) is not t: " ++ encList (exec2.map encItem))
         else if inFloatClass item then
-          (if showStack (exec2.map Item.show) == printed then ""
-           else " PROPFAIL C11 print(parse(print t)) differs: " ++ encName (showStack (exec2.map Item.show)))
+          (if reprinted == printed then ""
+           else " PROPFAIL C11 print(parse(print t)) differs: " ++ encName reprinted)
         else ""
-      if mm1 == "" && mm2 == "" && pf == "" then (if inFloatClass item then "ok N" else "ok T")
-      else "no" ++ mm1 ++ mm2 ++ pf
-    | _, _, _ => "bad item"
+      let mm3 := if showStack (exec2.map Item.show) == reprinted then ""
+        else " MISMATCH model= reprint " ++ encName (showStack (exec2.map Item.show))
+      if mm1 == "" && mm2 == "" && mm3 == "" && pf == "" then (if inFloatClass item then "ok N" else "ok T")
+      else "no" ++ mm1 ++ mm2 ++ mm3 ++ pf
+    | _, _, _, _ =>
+      if reprinted.toStr == "PANIC" then "no PROPFAIL C11 printing the reparsed program panicked" else "bad item"
+  | [_, _, .atom "PANIC"] => "no PROPFAIL C11 parsing a printed program panicked"
   | _ => "bad shape"
 
 end ParseDrv
